@@ -1070,7 +1070,7 @@ def static(repo):
     out.append(NEW_OBJECTS)
     apply_method(repo, out)
     gens = [g for g, _, _ in LEMMAS]
-    lem = ["Ltac unf := unfold %s,\n    %s." % (", ".join(gens), ", ".join(PY_NAMES)), ""]
+    lem = ["Ltac unf := cbv beta zeta delta [%s\n    %s]." % (" ".join(gens), " ".join(PY_NAMES)), ""]
     for g, args, py in LEMMAS:
         if args:
             lem.append("Lemma %s_is_py : forall %s, %s %s = %s %s.\nProof. tie unf. Qed." % (g, args, g, args, py, args))
